@@ -333,7 +333,7 @@ def checkShutdown (params : List String) (lines : List String) : CaseResult := I
       | some ms => subs := subs.push (i, ms)
       | none => r := { r with bad := s!"unreadable {ln}" :: r.bad }
     | ["blocked", who] =>
-      r := { r with specs := s!"shutdown_blocks: the {who} did not finish within 5 s of the tracer's context being cancelled" :: r.specs }
+      r := { r with specs := s!"shutdown_blocks: the {who} did not finish within 20 s of the tracer's context being cancelled" :: r.specs }
     | _ => r := { r with bad := s!"unknown line {ln}" :: r.bad }
   if !r.specs.isEmpty || !r.bad.isEmpty then return r
   match subs.toList with
